@@ -122,6 +122,10 @@ def make_huge_box_problem(spec):
     ub = np.where(sgn > 0, U, 0.0)
     x0 = sgn * U * (1.0 - r)
     c = -sgn * U * r * np.exp(rng.uniform(0.5, 3.0, n))  # one unit step along -c goes beyond the bound
+    if spec["seed"] % 2:
+        # or covers a hundredth to a third of the way only: the bound is reached after several iterations whose line search extrapolates
+        # along the (nearly linear) descent and is cut by the bound in the end
+        c = -sgn * U * r * np.exp(rng.uniform(-5.0, -1.0, n))
     q = 1e-3 * np.abs(c) / U
 
     def f(x):
